@@ -161,6 +161,16 @@ def gen_systematic():
     the disconnect only after another one; (b) every kind of message crosses the session's own Logout (Logout() or Stop()) on the
     wire before the peer's Logout answer arrives: no second Logout, logout event, context cancelled on the answer."""
     out = []
+    # (f) after a completed logout (ours answered by the peer, or the peer's answered by us) the peer goes on: a Logon nobody asked
+    # for, a TestRequest, a Heartbeat, a ResendRequest, a second Logout
+    for role in ("acceptor", "initiator"):
+        for how in ("llogout", "stop", "peer"):
+            for k, after in enumerate(("logon", "testreq", "hbt", "resend", "logout")):
+                p = Peer()
+                st = logged_on_prefix(role, 30, p) + [act("send")]
+                st += [p("logout")] if how == "peer" else [act(how), p("logout")]
+                st += [p(after, hb=30, id=[79], b=1, e=0), p("logon", hb=30), p("testreq", id=[80])]
+                out.append(dict(id="sys-%s-afterlogout-%s-%s" % (role[0], how, after), cfg=cfg(role, closems=2000), steps=st))
     # (e) an idle session whose heartbeats are whole minutes apart, and sends exactly one / sixty minutes after one another
     for role in ("acceptor", "initiator"):
         for N in (60, 120):
@@ -246,6 +256,18 @@ def gen_config():
                 p = Peer()
                 st = logged_on_prefix(role, 30, p) + [act("advance", ms=10), act(call), act("advance", ms=closems - 1), act("advance", ms=5), act("advance", ms=500)]
                 out.append(dict(id="cfg-%s-unsaved-%s-%d" % (call, role[0], closems), cfg=cfg(role, closems=closems, savefailonly=2), steps=st))
+    # the application's state-change callbacks consume their events (return false): Stop still ends on the peer's answer, also in
+    # the second lifetime of the session object
+    for role in ("acceptor", "initiator"):
+        for variant in ("stop", "second-stop", "second-llogout"):
+            p = Peer()
+            st = logged_on_prefix(role, 30, p)
+            if variant != "stop":
+                st += [act("llogout"), p("logout")] + ([act("relogon")] if role == "initiator" else []) + [p("logon", hb=30)]
+            st += [act("send"), act("llogout" if variant.endswith("llogout") else "stop"), act("advance", ms=10), p("logout"), act("advance", ms=3000)]
+            c = cfg(role, closems=2000)
+            c["evFalse"] = True
+            out.append(dict(id="cfg-evfalse-%s-%s" % (variant, role[0]), cfg=c, steps=st))
     # the counter store refuses one update of the incoming counter (and works again afterwards): whatever arrives just then -- the
     # peer's Logout, its answer to our Logout / Stop, a TestRequest, a ResendRequest -- is still handled (no time passes in these
     # scenarios: what a refused update means for the inbound timer is not the properties' business)
